@@ -364,6 +364,27 @@ def handler : Handler := fun op j =>
     some (ok (jObj [("mat", jMat (fun q p => xray3Project nv I0 I1 t0 t1 w (basis p) d0 d1 q) (d0 * d1) nv),
       ("doc", jMat (xray3Matrix I0 I1 t0 t1 w d1) (d0 * d1) nv),
       ("mass_out", jF (sumTo (d0 * d1) y)), ("mass_in", jF (sumTo nv (vecOf x))), ("covered", jB covered)]))
+  | "dftpad" => do
+    -- N-d DFT with transform shape `ms` (zero padding / truncation) over the axes `axes`: forward map (`dftFwdPad`),
+    -- inverse as coded (`dftInvCodedNd`), documented inverse (`dftInvDocNd`)
+    let ns ← fNats? j "ns"; let ms ← fNats? j "ms"; let axes ← fNats? j "axes"; let norm ← fStr? j "norm"
+    let Nin := prodL ns
+    let Nout := prodL ms
+    let mk (dims : List Nat) (inv : Bool) : List (Option Cx) :=
+      (List.range dims.length).map (fun a => if axes.contains a then some (rootC (dims.getD a 1) inv) else none)
+    let Tm := dftAxesSize ms (mk ms false)
+    let Tn := dftAxesSize ns (mk ns false)
+    let sc (T : Nat) (inv : Bool) : Float := match norm, inv with
+      | "ortho", _ => 1.0 / Float.sqrt T.toFloat
+      | "forward", false => 1.0 / T.toFloat
+      | "forward", true => 1.0
+      | _, false => 1.0
+      | _, true => 1.0 / T.toFloat
+    let basis (q : Nat) : V Cx := fun p => if p = q then 1 else 0
+    some (ok (jObj [
+      ("fwd", jCMat (fun f q => dftFwdPad ns ms (mk ms false) (cscale (sc Tm false)) (basis q) f) Nout Nin),
+      ("inv_coded", jCMat (fun p q => dftInvCodedNd ns ms (mk ns true) (cscale (sc Tn true)) (basis q) p) Nin Nout),
+      ("inv_doc", jCMat (fun p q => dftInvDocNd ns ms (mk ms true) (cscale (sc Tm true)) (basis q) p) Nin Nout)]))
   | "dftinit" => do
     let shape ← fNats? j "shape"
     let axes := fInts? j "axes"
